@@ -204,9 +204,12 @@ impl EventLoop {
         select! {
             // Pull a bunch of packets from network, reply in bunch and yield the first item
             o = network.readb(&mut self.state) => {
+                // flush all the acks and return first incoming packet. The acks of the
+                // packets read before one that ended the batch with an error were
+                // announced as well: they go out first
+                let flushed = time::timeout(network_timeout, network.flush()).await;
                 o?;
-                // flush all the acks and return first incoming packet
-                match time::timeout(network_timeout, network.flush()).await {
+                match flushed {
                     Ok(inner) => inner?,
                     Err(_)=> return Err(ConnectionError::FlushTimeout),
                 };
